@@ -18,4 +18,5 @@ import (
 	_ "github.com/bandprotocol/chain/v3/zzverif/props/c15"
 	_ "github.com/bandprotocol/chain/v3/zzverif/props/c16"
 	_ "github.com/bandprotocol/chain/v3/zzverif/props/c17"
+	_ "github.com/bandprotocol/chain/v3/zzverif/props/c18"
 )
